@@ -6,7 +6,7 @@ import subprocess
 
 from . import refinterp as I
 from . import refparse as P
-from .common import HYEONG, WORK, Stats, Violation, collect, finish, pmap, child_setup
+from .common import HYEONG, WORK, Stats, Violation, collect, finish, pmap, child_setup, strip_sgr
 from .eng_optdiff import big, push_value
 
 FRAGS = [b'\xed\x98\x95', b'\xed\x95\xad.', b'\xed\x9d\x91', b'\xed\x9d\x91.', b'?', b'\xe2\x99\xa5', b'\n', b'a', b'\x00',
@@ -169,17 +169,34 @@ def names_task():
     with open(os.path.join(d, '한글 이름.hyeong'), 'wb') as f:
         f.write(good)
     os.chmod(os.path.join(d, 'x.hyeong.bak'), 0)
-    cases = [('x.hyeong', 'ok'), ('x', 'error'), ('x.txt', 'error'), ('x.HYEONG', 'error'), ('.hyeong', 'error'),
+    # name lengths around the limits of the file system (255 bytes per component, 4096 per path)
+    long_cases = []
+    for n in (100, 247, 248):                       # + '.hyeong' = 107, 254, 255 bytes: these exist
+        nm = 'n' * n + '.hyeong'
+        with open(os.path.join(d, nm), 'wb') as f:
+            f.write(good)
+        long_cases.append((nm, 'ok'))
+    nm = '가' * 82 + '.hyeong'                       # 253 bytes in 89 characters
+    with open(os.path.join(d, nm), 'wb') as f:
+        f.write(good)
+    long_cases.append((nm, 'ok'))
+    for n in (249, 1000, 4090, 5000, 70000):        # too long for the file system: a diagnostic, never a crash
+        long_cases.append(('n' * n + '.hyeong', 'error'))
+    long_cases.append(('/'.join(['sub'] * 1500) + '/x.hyeong', 'error'))
+    cases = long_cases + [('x.hyeong', 'ok'), ('x', 'error'), ('x.txt', 'error'), ('x.HYEONG', 'error'), ('.hyeong', 'error'),
              ('missing.hyeong', 'error'), ('d.hyeong', 'error'), ('nodir/x.hyeong', 'error'), ('한글 이름.hyeong', 'ok'),
              (b'\xff.hyeong', None), ('', 'error'), ('x.hyeong/', 'error')]
     for name, exp in cases:
         for sub in (['run', '-O0'], ['run', '-O1'], ['run', '-O2'], ['check'], ['--verbose', 'run', '-O2'], ['--verbose', 'check'],
-                    ['run'], ['run', '--optimize', '1']):
+                    ['run'], ['run', '--optimize', '1'], ['run', '-O2', 'COLOUR'], ['check', 'COLOUR']):
+            colour = b'never'
+            if sub[-1] == 'COLOUR':
+                sub, colour = sub[:-1], b'always'
             arg = name
             env = dict(os.environ)
             env['RUST_BACKTRACE'] = '0'
             try:
-                p = subprocess.run(preexec_fn=child_setup, args=[HYEONG.encode()] + [s.encode() for s in sub] + [b'--color', b'never',
+                p = subprocess.run(preexec_fn=child_setup, args=[HYEONG.encode()] + [s.encode() for s in sub] + [b'--color', colour,
                                    arg if isinstance(arg, bytes) else arg.encode()],
                                    input=b'', stdout=subprocess.PIPE, stderr=subprocess.PIPE, cwd=d, env=env, timeout=30)
                 rc, out, err = p.returncode, p.stdout, p.stderr
@@ -191,8 +208,8 @@ def names_task():
             if name in ('', b'\xff.hyeong') and rc == 2 and b'panicked' not in err:
                 st.add('outcome', 'usage-error')
                 continue
-            judge(st, {'kind': 'name', 'name': name.hex() if isinstance(name, bytes) else name, 'cmd': ' '.join(sub)},
-                  rc, out, err, exp)
+            judge(st, {'kind': 'name', 'name': name.hex() if isinstance(name, bytes) else name,
+                       'cmd': ' '.join(sub) + (' --color always' if colour == b'always' else '')}, rc, out, strip_sgr(err), exp)
     shutil.rmtree(d, ignore_errors=True)
     return st
 
@@ -253,6 +270,14 @@ def special_task(texts):
         rc, out, err = run_bin(['check', '--color', 'never', path], b'', d)
         st.inc('execs')
         judge(st, {'kind': 'special', 'prog': text[:100], 'stdin_hex': '', 'cmd': 'check'}, rc, out, err, 'ok')
+        # the same with colours switched on (and left to the tool: `auto`)
+        for colour in ('always', 'auto'):
+            for args, sin, exp in ((['run', '-O0'], b'ab\n', predict(text, b'ab\n')), (['run', '-O2'], b'', predict(text, b'')),
+                                   (['check'], b'', 'ok')):
+                rc, out, err = run_bin(args + ['--color', colour, path], sin, d)
+                st.inc('execs')
+                judge(st, {'kind': 'special', 'prog': text if len(text) < 600 else text[:100] + '…[%d chars]' % len(text),
+                           'stdin_hex': sin.hex(), 'cmd': ' '.join(args) + ' --color ' + colour}, rc, out, strip_sgr(err), exp)
         st.inc('contents')
     shutil.rmtree(d, ignore_errors=True)
     return st
@@ -334,7 +359,7 @@ def run_c13(tier):
                 'valid programs (status 0, requested status, or status 1 with an [error] diagnostic)',
         'scope': {'fragments': [f.hex() for f in FRAGS], 'max_fragments': n, 'contents': len(contents),
                   'stdin_variants_for_reading_programs': [s.hex() if len(s) < 50 else '64KiB line' for s in STDINS],
-                  'special_programs': len(sp), 'undecodable_stdin_ladder': len(bs), 'file_name_cases': 12, 'step_budget': BUDGET},
+                  'special_programs': len(sp), 'undecodable_stdin_ladder': len(bs), 'file_name_cases': 22, 'step_budget': BUDGET},
         'distinct_outcomes': sorted(st.sets.get('outcome', ())),
         'samples': [{'content_hex': (FRAGS[2] + FRAGS[1] + FRAGS[9]).hex(), 'cmd': 'run -O2'},
                     {'name': 'd.hyeong (a directory)', 'cmd': 'check'}, {'prog': 'write 0xD800 to stderr after a read', 'cmd': 'run -O1'}],
